@@ -126,6 +126,8 @@ func TimeOf(v *refcodec.Value) time.Time {
 		return time.Unix(0, v.Ticks*100).In(time.FixedZone("X", 5*3600+1800))
 	case 2:
 		return time.Unix(0, v.Ticks*100+55).UTC()
+	case 3:
+		return time.Unix(0, v.Ticks*100-45).UTC()
 	}
 	return time.Unix(0, v.Ticks*100).UTC()
 }
